@@ -1130,8 +1130,14 @@ where
             // Only subsequent messages may leave out the question. An error
             // response without any sections is the one exception, see
             // is_answer.
-            let no_question = answer.header_counts().qdcount() == 0
-                && answer.header().rcode() == Rcode::NOERROR;
+            let counts = answer.header_counts();
+            let header_only_error = answer.header().rcode()
+                != Rcode::NOERROR
+                && counts.qdcount() == 0
+                && counts.ancount() == 0
+                && counts.nscount() == 0
+                && counts.arcount() == 0;
+            let no_question = counts.qdcount() == 0 && !header_only_error;
             if no_question || !msg.is_answer(answer.for_slice()) {
                 xfr_state = XFRState::Error;
                 // If we detect an error, then keep the stream open. We are
